@@ -131,19 +131,45 @@ class World:
         self.t.get_connection_hints()
         self.port = sep.port if listener else None
         self.listener_obs = Obs(self.t._listener_d) if listener else None
+        # the peer's hints: [host, port, priority] entries; the same host:port may occur twice, a hostname may be
+        # one for which building the endpoint is delicate (NUL bytes, scope ids, ...)
+        self.dhints = [list(h) for h in cfg.get("dhints", [[f"d{j}", 1, 0] for j in range(cfg.get("directs", 0))])]
+        rh = [list(h) for h in cfg.get("rhints", [[f"r{j}", 1, p] for j, p in enumerate(cfg.get("relays", []))])]
+        self.rhints = []
+        for h in rh:                       # identical relay hints are one hint (the code keeps them in a set)
+            if h not in self.rhints:
+                self.rhints.append(h)
         hints = []
         self.labels = []
+        self.entries = []                  # per outbound contender: (label, host, port, prio, is_relay)
         if listener:
             self.labels.append(None)
-        for j in range(cfg["directs"]):
-            hints.append({"type": "direct-tcp-v1", "hostname": f"d{j}", "port": 1, "priority": 0.0})
+        for j, (host, port, prio) in enumerate(self.dhints):
+            hints.append({"type": "direct-tcp-v1", "hostname": host, "port": port, "priority": float(prio)})
             self.labels.append(f"d{j}")
-        for j, p in enumerate(cfg["relays"]):
-            hints.append({"type": "relay-v1", "hints": [{"type": "direct-tcp-v1", "hostname": f"r{j}", "port": 1,
-                                                         "priority": float(p)}]})
+            self.entries.append([f"d{j}", host, port, float(prio), False, False])
+        for j, (host, port, prio) in enumerate(self.rhints):
+            hints.append({"type": "relay-v1", "hints": [{"type": "direct-tcp-v1", "hostname": host, "port": port,
+                                                         "priority": float(prio)}]})
             self.labels.append(f"r{j}")
+            self.entries.append([f"r{j}", host, port, float(prio), True, False])
         self.t.add_connection_hints(hints)
         self.eps = {l: FakeEndpoint(l) for l in self.labels if l}
+        # what the model is told: description keys (equal = same description) and whether the REAL
+        # endpoint_from_hint_obj raises for the hint
+        from wormhole import _hints as _h
+        descs = {}
+        self.keys, self.raises = [], []
+        if listener:
+            self.keys.append(999)
+            self.raises.append(0)
+        for lab, host, port, prio, is_relay, _ in self.entries:
+            self.keys.append(descs.setdefault((is_relay, host, port), len(descs)))
+            try:
+                _h.endpoint_from_hint_obj(DirectTCPV1Hint(host, port, prio), None, self.clock)
+                self.raises.append(0)
+            except Exception:
+                self.raises.append(1)
         self.conns = []          # dicts: p, tr, obs, rx, relay, gone, born
         self.started = False
         self.t0 = None
@@ -198,7 +224,19 @@ class World:
                 return None
             self.started = True
             self.t0 = self.clock.seconds()
-            with mock.patch("wormhole.transit.endpoint_from_hint_obj", lambda h, tor, reactor: self.eps[h.hostname]):
+            from wormhole import _hints as _h
+            real = _h.endpoint_from_hint_obj
+
+            def efho(h, tor, reactor):
+                ep = real(h, tor, reactor)          # the REAL function decides (may return None, may raise)
+                if not ep:
+                    return ep
+                for e in self.entries:              # directs are asked first, in list order; then the relays
+                    if not e[5] and (e[1], e[2], e[3]) == (h.hostname, h.port, float(h.priority)):
+                        e[5] = True
+                        return self.eps[e[0]]
+                raise AssertionError(f"harness: unexpected hint {h!r}")
+            with mock.patch("wormhole.transit.endpoint_from_hint_obj", efho):
                 d = self.t.connect()
             self.result = Obs(d)
             d.addErrback(lambda f: None)
@@ -347,6 +385,26 @@ class World:
                 v.append(("late-arrival-accepted", f"conn {i} was accepted by the listener {c['born'] - self.t0}s after "
                                                    f"connect() was called, when connect() had already fired "
                                                    f"({self.show_res(self.result.res)}); state={c['p'].state}"))
+        if self.fired():
+            # every attempt that was ever started is, once connect() has fired, the winner or closed/cancelled
+            for lab, ep in self.eps.items():
+                if ep.d is not None and not ep.d.called:
+                    v.append(("attempt-outlives-connect", f"connect() has fired ({self.show_res(self.result.res)}) but the "
+                                                          f"connection attempt {lab} is still running: nobody cancelled it"))
+            won = self.idx(self.result.res[1]) if self.result.res[0] == "ok" else None
+            timers = set()
+            for i, c in enumerate(self.conns):
+                tc = getattr(c["p"], "_TimeoutMixin__timeoutCall", None)
+                if tc is not None:
+                    timers.add(id(tc))
+                if i != won and not c["tr"].lost and not c["gone"]:
+                    v.append(("conn-outlives-connect", f"connect() has fired ({self.show_res(self.result.res)}) but conn {i} "
+                                                       f"is still open (state={c['p'].state})"))
+            for dc in self.clock.getDelayedCalls():
+                if dc.active() and id(dc) not in timers:
+                    v.append(("timer-outlives-connect", f"connect() has fired ({self.show_res(self.result.res)}) but a delayed "
+                                                        f"call that is not a connection's timeout is still pending (a relay "
+                                                        f"attempt waiting to start, or the deadline)"))
         if self.sender and self.fired() and self.result.res[0] == "fail" and go_conns:
             v.append(("go-after-failure", f"the Sender's connect() failed with {self.result.res[1]} but it wrote 'go' on "
                                           f"connection(s) {go_conns}"))
@@ -371,10 +429,14 @@ class World:
                 v.append(("deadline-missed", f"connect() still pending {now - self.t0}s after it was called"))
 
 
+def spec(l):
+    return ",".join(str(x) for x in l) or "-"
+
+
 def new_line(w):
     c = w.cfg
-    rel = ",".join(str(p) for p in c["relays"]) or "-"
-    return f"new {c['role']} {1 if c['listener'] else 0} {c['directs']} {rel} {hx(w.send_this)} {hx(w.expect_this)} {hx(w.relay_hs)}"
+    return (f"new {c['role']} {1 if c['listener'] else 0} {len(w.dhints)} {spec(int(h[2]) for h in w.rhints)} "
+            f"{hx(w.send_this)} {hx(w.expect_this)} {hx(w.relay_hs)} {spec(w.keys)} {spec(w.raises)}")
 
 
 def op_line(op):
@@ -486,6 +548,36 @@ def chunk(rng, s, mode):
     return out
 
 
+NASTY_HOSTS = ["a\x00b", "\x00", "1.2.3.4\x00", "::1\x00", "fe80::1%eth0", "fe80::1%", "1.2.3.4", "::1", "\u00e9.example",
+               "", "1.2.3", "[::1]", "a" * 70, " 1.2.3.4", "%"]
+
+
+def gen_hints(rng, ndirect, relay_prios):
+    """the peer's hint lists: mostly distinct plain hosts; sometimes the same host:port twice (among the direct
+    hints, among the relay hints with another priority, once direct and once relay), sometimes a hostname that has
+    tripped address classifiers — at any position"""
+    dh = [[f"d{j}", 1, 0] for j in range(ndirect)]
+    rh = [[f"r{j}", 1, p] for j, p in enumerate(relay_prios)]
+    r = rng.random()
+    if r < 0.35:
+        for _ in range(rng.choice([1, 1, 2])):
+            what = rng.choice(["dup-direct", "dup-direct", "dup-relay", "direct+relay", "nasty", "nasty", "nasty-relay"])
+            if what == "dup-direct" and dh:
+                src = rng.choice(dh)
+                dh.insert(rng.randrange(len(dh) + 1), [src[0], src[1], rng.choice([src[2], src[2], 1])])
+            elif what == "dup-relay" and rh:
+                src = rng.choice(rh)
+                rh.insert(rng.randrange(len(rh) + 1), [src[0], src[1], src[2] + 1])
+            elif what == "direct+relay" and dh:
+                src = rng.choice(dh)
+                rh.insert(rng.randrange(len(rh) + 1), [src[0], src[1], rng.choice([0, 1])])
+            elif what == "nasty":
+                dh.insert(rng.randrange(len(dh) + 1), [rng.choice(NASTY_HOSTS), rng.choice([1, 1, 0, 65535]), 0])
+            elif what == "nasty-relay":
+                rh.insert(rng.randrange(len(rh) + 1), [rng.choice(NASTY_HOSTS), 1, rng.choice([0, 1])])
+    return dh[:4], rh[:3]
+
+
 def gen_case(rng, big=False):
     """a schedule chosen against the live real objects (so most operations are possible), with a
     sprinkling of impossible ones"""
@@ -495,7 +587,8 @@ def gen_case(rng, big=False):
     relays = [rng.choice([0, 0, 1, 2]) for _ in range(rng.choice([0, 0, 1, 2]))]
     if not listener and directs == 0 and not relays and rng.random() < 0.8:
         listener = True
-    cfg = dict(role=role, listener=listener, directs=directs, relays=relays)
+    dh, rh = gen_hints(rng, directs, relays)
+    cfg = dict(role=role, listener=listener, dhints=dh, rhints=rh)
     w = World(cfg)
     ops, kinds = [], []
     pending = {}       # conn index -> list of chunks still to deliver
@@ -653,6 +746,32 @@ def corpus():
       [["connect"], ["advance", 0], ["connected", 1], ["data", 0, hx(b"ok\n" + E_s)], ["inbound"], ["data", 1, hx(E_s)]],
       "late-keyholder-after-relay-winner")
     c(L, [["inbound"], ["data", 0, hx(E_s)], ["inbound"], ["connect"], ["inbound"]], "late-after-early-inbound-winner")
+    # the peer names the same host:port twice (direct twice; relay twice with another priority; direct and relay):
+    # every started attempt is a contender — whichever finishes first is returned, the others are cancelled
+    for first in (0, 1):
+        c(dict(role="S", listener=False, dhints=[["h", 7, 0], ["h", 7, 0]], rhints=[]),
+          [["connect"], ["connected", 0], ["connected", 1], ["data", first, hx(E_s)], ["advance", 120]], f"dup-direct-{first}")
+        c(dict(role="S", listener=True, dhints=[["h", 7, 0], ["x", 1, 0], ["h", 7, 1]], rhints=[]),
+          [["connect"], ["connected", 1 + 2 * first], ["data", 0, hx(E_s)], ["advance", 60], ["advance", 60]], f"dup-direct-listener-{first}")
+        c(dict(role="S", listener=False, dhints=[], rhints=[["r", 9, 0], ["r", 9, 1]]),
+          [["connect"], ["advance", 0], ["advance", 2], ["connected", first], ["data", 0, hx(b"ok\n" + E_s)], ["advance", 120]], f"dup-relay-{first}")
+    c(dict(role="S", listener=False, dhints=[["h", 7, 0]], rhints=[["h", 7, 0]]),
+      [["connect"], ["advance", 2], ["connected", 1], ["connected", 0], ["data", 0, hx(b"ok\n" + E_s)], ["advance", 120]], "dup-direct+relay")
+    c(dict(role="R", listener=False, dhints=[["h", 7, 0], ["h", 7, 0]], rhints=[]),
+      [["connect"], ["connected", 0], ["connected", 1], ["data", 0, hx(E_r + GO)], ["advance", 120]], "dup-direct-receiver")
+    # a hostname for which building the endpoint is delicate, at every position, with and without our own listener
+    for lst in (False, True):
+        for pos in range(3):
+            for bad in ("a\x00b", "1.2.3.4\x00", "fe80::1%"):
+                dh = [["d0", 1, 0], ["d1", 1, 0]]
+                dh.insert(pos, [bad, 1, 0])
+                k0 = 1 if lst else 0
+                good = k0 + (0 if pos != 0 else 1)          # an attempt other than the delicate one
+                c(dict(role="S", listener=lst, dhints=dh, rhints=[["r0", 1, 0]]),
+                  [["connect"], ["connected", good], ["data", 0, hx(E_s)], ["advance", 2], ["connected", k0 + pos],
+                   ["advance", 120]], f"nasty-host-{int(lst)}-{pos}")
+    c(dict(role="S", listener=True, dhints=[], rhints=[["r\x00", 1, 1], ["r1", 1, 0]]),
+      [["connect"], ["advance", 0], ["inbound"], ["data", 0, hx(E_s)], ["advance", 120]], "nasty-relay-host")
     # cancelled connection whose timer is still running
     c(dict(L, directs=1), [["connect"], ["inbound"], ["connected", 1], ["data", 1, hx(E_s)], ["advance", 60], ["lost", 0], ["advance", 60]], "cancelled-then-timeout")
     return out
@@ -713,16 +832,29 @@ class DuoWorld:
 
     def __init__(self, cfg):
         self.cfg = cfg
-        self.S = World(dict(role="S", listener=cfg["lS"], directs=cfg["dS"], relays=cfg["rS"]))
-        self.R = World(dict(role="R", listener=cfg["lR"], directs=cfg["dR"], relays=cfg["rR"]))
+        def side(role, l, d, r, hd, hr):
+            c = dict(role=role, listener=cfg[l])
+            if hd in cfg:
+                c["dhints"] = cfg[hd]
+            else:
+                c["directs"] = cfg[d]
+            if hr in cfg:
+                c["rhints"] = cfg[hr]
+            else:
+                c["relays"] = cfg[r]
+            return c
+        self.S = World(side("S", "lS", "dS", "rS", "hdS", "hrS"))
+        self.R = World(side("R", "lR", "dR", "rR", "hdR", "hrR"))
         self.links = []          # (sIdx, rIdx, relay)
         self.viol = []
 
     def new_line(self):
         c = self.cfg
-        rel = lambda l: ",".join(str(p) for p in l) or "-"
-        return (f"duo {1 if c['lS'] else 0} {c['dS']} {rel(c['rS'])} {1 if c['lR'] else 0} {c['dR']} {rel(c['rR'])} "
-                f"{hx(self.S.send_this)} {hx(self.S.expect_this)} {hx(self.S.relay_hs)} {hx(self.R.relay_hs)}")
+        S, R = self.S, self.R
+        return (f"duo {1 if c['lS'] else 0} {len(S.dhints)} {spec(int(h[2]) for h in S.rhints)} "
+                f"{1 if c['lR'] else 0} {len(R.dhints)} {spec(int(h[2]) for h in R.rhints)} "
+                f"{hx(S.send_this)} {hx(S.expect_this)} {hx(S.relay_hs)} {hx(R.relay_hs)} "
+                f"{spec(S.keys)} {spec(S.raises)} {spec(R.keys)} {spec(R.raises)}")
 
     def linked(self, side, i):
         return any((l[0] if side == "S" else l[1]) == i for l in self.links)
@@ -868,6 +1000,8 @@ def gen_duo(rng, big=False):
     if not cfg["lS"] and not cfg["lR"] and not (cfg["rS"] and cfg["rR"]):
         cfg["lS"] = True
         cfg["dR"] = max(cfg["dR"], 1)
+    cfg["hdS"], cfg["hrS"] = gen_hints(rng, cfg["dS"], cfg["rS"])
+    cfg["hdR"], cfg["hrR"] = gen_hints(rng, cfg["dR"], cfg["rR"])
     w = DuoWorld(cfg)
     ops = []
 
@@ -962,6 +1096,16 @@ def corpus_duo():
     c(dict(lS=True, dR=2),
       both + [["S", "inbound"], ["S", "data", 0, hx(b"GET / HTTP/1.0\r\n\r\n")], ["R", "connected", 0], ["R", "data", 0, hx(b"transit sender 00 ready\n\ngo\n")],
               ["link", "s", 1], ["fwd", "RS", 0, 200], ["fwd", "SR", 0, 200]], "strangers-then-link")
+    # the Sender dials the Receiver's port twice (same host:port twice in the Receiver's hints); either attempt may win
+    for first in (0, 1):
+        c(dict(lR=True, hdS=[["h", 7, 0], ["h", 7, 0]], hrS=[]),
+          both + [["link", "r", 0], ["link", "r", 1], ["fwd", "RS", first, 200], ["fwd", "SR", first, 200], ["fwd", "RS", 1 - first, 200],
+                  ["fwd", "SR", 1 - first, 200], ["S", "advance", 120], ["R", "advance", 120]], f"dup-dial-{first}")
+    # a delicate hostname in front of the good hint; our own listener is what the peer reaches
+    c(dict(lS=True, hdS=[["a\x00b", 1, 0], ["d1", 1, 0]], hrS=[], dR=1),
+      both + [["link", "s", 0], ["fwd", "RS", 0, 200], ["fwd", "SR", 0, 200], ["S", "advance", 120], ["R", "advance", 120]], "nasty-host-then-listener")
+    c(dict(lR=True, hdS=[["d0", 1, 0], ["::1\x00", 1, 0]], hrS=[]),
+      both + [["link", "r", 0], ["fwd", "RS", 0, 200], ["fwd", "SR", 0, 200], ["S", "advance", 120], ["R", "advance", 120]], "nasty-host-behind")
     # the Receiver is late: the Sender's deadline passes first
     c(dict(lS=True, dR=1), [["S", "connect"], ["S", "advance", 120], ["R", "connect"], ["link", "s", 0], ["R", "connfail", 0]], "late-receiver")
     # the link is cut before go arrives
